@@ -90,6 +90,8 @@ def trunc(w, x):
         return (x[0], w, inner) if x[0] == "sext" else zext(w, inner)
     if x[0] == "trunc":
         return trunc(w, x[2])
+    if x[0] == "neg":
+        return neg(w, trunc(w, x[2]))
     if x[0] == "ite":
         return ite(x[1], trunc(w, x[2]), trunc(w, x[3]))
     return ("trunc", w, x)
@@ -294,6 +296,8 @@ def shift(name, w, x, n):
 def neg(w, x):
     if is_k(x):
         return K(w, -x[2])
+    if x[0] == "neg":
+        return x[2]
     return ("neg", w, x)
 
 
